@@ -34,6 +34,30 @@ ALT_OPTS = {"prefix": "p-", "suffix": ".tensor", "feat_subdir": "ff", "ali_subdi
 
 
 # ----------------------------------------------------------------------------- generators
+def tok_id(rng):
+    """A token id: the slicer documents it as ignored and the chunker only copies it. Mostly small class
+    indices, but also ids far from 0 and NEGATIVE ids (e.g. -1 for an unknown token: the library's validator
+    rejects those, so for such a source the well-formedness clause is not evaluated, everything else is)."""
+    x = rng.random()
+    if x < 0.7:
+        return rng.randint(0, 9)
+    if x < 0.85:
+        return rng.choice([rng.randint(10, 2 ** 40), 2 ** 31, 2 ** 62])
+    return rng.choice([-1, -1, -rng.randint(2, 9), -2 ** 31 - 1])
+
+
+def ali_labels(rng):
+    """Three distinct alignment labels: only equality of neighbouring frames matters to the 'ali' policy."""
+    if rng.random() < 0.5:
+        return [0, 1, 2]
+    out = []
+    while len(out) < 3:
+        v = rng.choice([rng.randint(-9, 9), rng.randint(-2 ** 40, 2 ** 40), 2 ** 31, -2 ** 31 - 1])
+        if v not in out:
+            out.append(v)
+    return out
+
+
 def gen_utt(rng, u, style):
     """One utterance. style 'tiled': tokens tile the utterance (neighbouring segments, assorted
     durations: some inside a window, some straddling window edges); 'random': arbitrary segments
@@ -47,23 +71,25 @@ def gen_utt(rng, u, style):
     ali = [rng.randint(0, 2)]
     for _ in range(T - 1):
         ali.append(ali[-1] if rng.random() < 0.55 else rng.randint(0, 2))
+    labels = ali_labels(rng)
+    ali = [labels[a] for a in ali]
     ref = []
     if style == "tiled":
         t = rng.choice([0, 0, 1])
         while t < T:
             d = min(rng.randint(1, 4), T - t)
-            ref.append([rng.randint(0, 9), t, t + d])
+            ref.append([tok_id(rng), t, t + d])
             t += d
             if rng.random() < 0.1:
                 break
     else:
         for _ in range(rng.randint(0, 4)):
             if rng.random() < 0.15:
-                ref.append([rng.randint(0, 9), -1, -1])
+                ref.append([tok_id(rng), -rng.choice([1, 1, 2, 7]), -rng.choice([1, 1, 3, 2 ** 33])])   # missing = any negative pair
             else:
                 s = rng.randint(0, T)
                 e = rng.randint(s, T)
-                ref.append([rng.randint(0, 9), s, e])
+                ref.append([tok_id(rng), s, e])
         if rng.random() < 0.6:
             ref.sort(key=lambda t: (t[1], t[2]))
     uid = rng.choice([f"u{u}", f"spk{u}.a-{u}", f"{u}_x"])
@@ -93,7 +119,7 @@ def mk_case(rng, policy, valid, partial, retain, quiet, utts, opts=None, wt=None
     return {"kind": "dir", "policy": policy, "wt": wt or rng.choice(WTS),
             "lobe": rng.randint(0, 3) if lobe is None else lobe, "valid": valid, "pad_mode": pad_mode,
             "pad_constant": pad_constant, "partial": partial, "retain": retain, "quiet": quiet, "opts": o,
-            "utts": utts}
+            "feat_dtype": rng.choice(["float32", "float32", "float64"]), "utts": utts}
 
 
 def gen_quick(rng, rounds=3):
@@ -136,6 +162,7 @@ def norm(case):
     c.setdefault("pad_mode", None if c["valid"] else "constant")
     c.setdefault("pad_constant", None if c["valid"] else PAD)
     c.setdefault("quiet", True)
+    c.setdefault("feat_dtype", "float32")
     o = dict(DEFAULT_OPTS)
     o.update(c.get("opts") or {})
     c["opts"] = o
@@ -158,7 +185,7 @@ def write_dir(case, root):
         T = u["T"]
         name = lay["prefix"] + u["id"] + lay["suffix"]
         feat = torch.tensor([[feat_value(ui, t, f) for f in range(F)] for t in range(T)],
-                            dtype=torch.float).reshape(T, F)
+                            dtype=getattr(torch, case["feat_dtype"])).reshape(T, F)
         torch.save(feat, os.path.join(root, lay["feat"], name))
         if "ali" in subs:
             torch.save(torch.tensor(u["ali"], dtype=torch.long), os.path.join(root, lay["ali"], name))
@@ -397,7 +424,7 @@ def predicate(case, impl, model, sig_plus):
             a, b = e["start"], e["end"]
             src_t = [pad_frame(case, t, T) for t in range(a, b)]
             want_feat = [[feat_value(ui, t, f) if t is not None else pad_value for f in range(F)] for t in src_t]
-            if e["feat"] != want_feat or e["feat_dtype"] != "torch.float32":
+            if e["feat"] != want_feat or e["feat_dtype"] != "torch." + case["feat_dtype"]:
                 fails.append((f"utterance {u['id']} window [{a},{b}): features are not the source restricted to the "
                               f"window: {e['feat']}", None))
             if o["has_ali"]:
@@ -424,7 +451,10 @@ def predicate(case, impl, model, sig_plus):
     # well-formedness of the produced directory (library validator). Partial matches may legitimately
     # stick out of the chunk and retained boundaries are absolute by request, so the clause is evaluated
     # for contained tokens with slice-relative boundaries only.
-    if "valid_raw" in impl and not case["partial"] and not case["retain"]:
+    # A source holding a negative token id is not well-formed by the validator's own rule (the premise of the
+    # clause fails); all other clauses above are evaluated for it as for any other source.
+    src_well_formed = all(tk[0] >= 0 for u in case["utts"] for tk in u["ref"]) or not o["has_ref"]
+    if "valid_raw" in impl and not case["partial"] and not case["retain"] and src_well_formed:
         if impl["valid_raw"] != "ok":
             if plus_seen and not other_ref_mismatch and impl.get("valid_minus_2start") == "ok":
                 fails.append((f"chunked directory is not well-formed ({impl['valid_raw']}) solely through the "
@@ -448,6 +478,13 @@ def tags(case, impl):
     for k, v in o.items():
         if v != DEFAULT_OPTS[k]:
             t.append(f"dir:opt:{k}={v}")
+    t.append(f"dir:feat_dtype={case['feat_dtype']}")
+    if o["has_ref"] and any(tk[0] < 0 and tk[1] >= 0 and tk[2] >= 0 for u in case["utts"] for tk in u["ref"]):
+        t.append(f"dir:{case['policy']}:token_id<0:segment_known")
+    if o["has_ref"] and any(abs(tk[0]) >= 2 ** 31 for u in case["utts"] for tk in u["ref"]):
+        t.append("dir:token_id:beyond_int32")
+    if o["has_ali"] and any(a < 0 for u in case["utts"] for a in u["ali"]):
+        t.append(f"dir:{case['policy']}:ali_label<0")
     if isinstance(impl, dict) and "utts" in impl:
         straddle = nonzero_start = False
         for u in case["utts"]:
@@ -481,6 +518,8 @@ def shrink(case):
     for k, v in case["opts"].items():
         if v != DEFAULT_OPTS[k]:
             yield dict(case, opts=dict(case["opts"], **{k: DEFAULT_OPTS[k]}))
+    if case["feat_dtype"] != "float32":
+        yield dict(case, feat_dtype="float32")
     if case["pad_mode"] == "replicate":
         yield dict(case, pad_mode="constant", pad_constant=PAD)
     if case["lobe"] > 0:
